@@ -1452,6 +1452,12 @@ theorem gen_symm_table (s : Symm) :
 def helperOf (s : Symm) : SymHelper :=
   (StructC16.symmOptions.lookup (symmName s)).getD ⟨.arg, false, true⟩
 
+/-- the helper table read from the source is the model's `stdHelper` (used by the driver) -/
+theorem gen_helperOf (s : Symm) : helperOf s = stdHelper s := by
+  unfold helperOf
+  rw [gen_symm_table]
+  cases s <;> rfl
+
 /-- which options `event_series_analysis` accepts per method: all six for ES; exactly the
 four of `ecaAnalysis_range` for ECA; the three window types -/
 theorem gen_symm_allowed (s : Symm) (w : Window) :
